@@ -10,12 +10,12 @@ open Revm.Spec.Ether Revm.Proofs.Ether
 
 /-- a quiet stage preserves the ledger invariant -/
 theorem Pres.of_quiet {L B} {w w' : World} (q : Quiet w w') : Pres L B w w' :=
-  ⟨q.kle, fun _ h => by unfold EI at *; rw [q.db, q.same.absB]; exact h, by rw [q.db]⟩
+  ⟨q.kle, fun _ h => by unfold EI at *; rw [q.db, q.same.absB]; exact h, by rw [q.db], q.ng⟩
 
 /-- rewriting a present account without changing its balance -/
 theorem quiet_setAcct {w : World} {a : Nat} {acc acc' : Journal.Acct} (hs : w.js.state a = some acc)
     (hb : acc'.info.balance = acc.info.balance) : Quiet w { w with js := Journal.setAcct w.js a acc' } :=
-  ⟨same_setAcct' hs hb, rfl, KLe.setAcct _ _ _⟩
+  ⟨same_setAcct' hs hb, rfl, KLe.setAcct _ _ _, ng_setAcct _ (present_of_some hs)⟩
 
 /-- a loop whose body keeps a preorder keeps it -/
 theorem forIn_rel {α σ : Type} (f : α → σ → R (ForInStep σ)) (Rel : σ → σ → Prop) (hr : ∀ s, Rel s s)
@@ -107,7 +107,7 @@ end auth
 
 theorem quiet_loadCode {w w1 : World} {a : Nat} {c : Bool} (h : w.loadCode a = .ok (w1, c)) : Quiet w w1 := by
   obtain ⟨t1, t2⟩ := w_loadCode_tr h
-  exact ⟨loadCode_same t1, t2, (kle_loadCode t1).1⟩
+  exact ⟨loadCode_same t1, t2, (kle_loadCode t1).1, ng_loadCode h⟩
 
 /-- the journal's `load_account` reads only `db.basic` -/
 theorem loadAccount_db {db db' : Journal.Db} (h : db'.basic = db.basic) (s : Journal.JState) (a : Nat) :
